@@ -346,6 +346,12 @@ fn handle(col: &Collector, found: &Found, inp: &Input, out: &Outcome, calib: &Mu
     // returns false when the child must be respawned
     col.eval(1);
     col.class(&format!("kind:{}", inp.kind));
+    {
+        // mutation class histogram (generator health): field classes are folded by kind of value
+        let c = inp.class.split('=').next().unwrap_or("").split(':').next().unwrap_or("");
+        let c = if inp.class.starts_with("field:") { format!("field={}", inp.class.rsplit('=').next().unwrap_or("")) } else if inp.class.starts_with("zero:") { inp.class.clone() } else { c.to_string() };
+        col.class(&format!("mut:{c}"));
+    }
     match judge(inp, out) {
         Ok(Some(r)) => {
             if r.status == "ok" {
@@ -413,8 +419,15 @@ pub fn run(ctx: &Ctx, col: &Collector) -> Meta {
                     inputs.push(Input { kind: k.clone(), bytes: b.clone(), class: "valid".into(), changes_count: false });
                     enumerate(&k, &b, ctx.thorough, &mut inputs);
                 }
-                for (i, inp) in inputs.iter().enumerate() {
-                    if i % ctx.threads != t {
+                // every worker has its own seeds (same shapes, different random bytes and hash
+                // orders), so the enumerations are not index-aligned across workers: an input is
+                // owned by the worker given by a stable hash of (kind, class, k-th of that group)
+                let mut nth: std::collections::HashMap<(String, String), u64> = std::collections::HashMap::new();
+                for inp in inputs.iter() {
+                    let k = nth.entry((inp.kind.clone(), inp.class.clone())).or_insert(0);
+                    let owner = crate::report::fp(&(&inp.kind, &inp.class, *k)) % ctx.threads as u64;
+                    *k += 1;
+                    if owner != t as u64 {
                         continue;
                     }
                     if col.stopped() {
@@ -454,6 +467,15 @@ pub fn run(ctx: &Ctx, col: &Collector) -> Meta {
     let found = found.map.into_inner().unwrap();
     for (_sig, (f, inp)) in found {
         report_fail(col, "bytes", f, json!({"kind": inp.kind, "class": inp.class, "hex": wire::hex(&inp.bytes)}));
+    }
+    for c in [
+        "mut:truncation", "mut:byte-xor01", "mut:byte-setff", "mut:field=0", "mut:field=small", "mut:field=medium", "mut:field=huge", "mut:field=overlong-leb",
+        "mut:zero:no-traps", "mut:zero:no-components", "mut:zero:no-markers", "mut:zero:no-rights", "mut:zero:empty-chains", "mut:zero:no-tracers", "mut:zero:no-dimensions",
+        "mut:metadata-truncated", "mut:many-components", "mut:random-bytes", "mut:splice", "mut:smash", "mut:insert", "mut:remove",
+    ] {
+        if col.class_count(c) == 0 && !col.stopped() {
+            col.note(format!("generator unhealthy: mutation class {c} never produced"));
+        }
     }
     for k in ["xenc", "header", "usk", "mpk", "msk", "structure"] {
         if col.class_count(&format!("parsed:{k}")) == 0 && !col.stopped() {
